@@ -176,6 +176,8 @@ where
     stats.add("probe_writer_queued_behind_reader", outcome.probes.writer_queued_behind_reader);
     stats.add("probe_writer_queued_behind_writer", outcome.probes.writer_queued_behind_writer);
     stats.add("probe_reader_blocked_by_queued_writer", outcome.probes.reader_blocked_by_queued_writer);
+    stats.add("fault_preempted_inside_critical_section", outcome.probes.preemptions_inside_critical_section);
+    stats.add("probe_try_lock_acquisitions", outcome.probes.try_acquisitions);
     let mut fp = Vec::with_capacity(outcome.grants.len() * 3);
     for g in &outcome.grants {
         fp.extend_from_slice(&[g.0, g.1, g.2]);
@@ -360,10 +362,14 @@ impl Conc {
             return None;
         }
         for t in 0..sc.tries.max(1) {
-            let out = run_once::<F>(sc, Rng::new(rng::mix(sc.sched_seed ^ (t as u64) << 20)), None, only_inv, stats);
+            // the pinned scenario carries the effective schedule seed, so that the replay draws
+            // the same in-critical-section preemption coins
+            let eff = if t == 0 { sc.sched_seed } else { rng::mix(sc.sched_seed ^ (t as u64) << 20) };
+            let out = run_once::<F>(sc, Rng::new(eff), None, only_inv, stats);
             stats.inc("schedules_run");
             if let Some(v) = out.violation {
                 let mut p = sc.clone();
+                p.sched_seed = eff;
                 p.forced = Some(out.trace);
                 p.tries = 1;
                 return Some((v, p));
@@ -450,6 +456,7 @@ impl Engine for Conc {
             policy: Policy {
                 kind,
                 writer_pref: rng.chance(2, 3),
+                preempt_in_cs: rng.chance(1, 3),
             },
             sched_seed: rng.next_u64(),
             tries: 1,
@@ -541,6 +548,13 @@ impl Engine for Conc {
                     out.push(c);
                 }
             }
+            if sc.policy.preempt_in_cs {
+                let mut c = sc.clone();
+                c.policy.preempt_in_cs = false;
+                c.forced = None;
+                c.tries = 120;
+                out.push(c);
+            }
             if !sc.policy.writer_pref {
                 // nothing
             } else {
@@ -571,5 +585,6 @@ impl Engine for Conc {
             + weight * 3
             + sc.forced.as_ref().map(|f| switches(f)).unwrap_or(0)
             + sc.policy.writer_pref as usize
+            + sc.policy.preempt_in_cs as usize * 2
     }
 }
